@@ -17,7 +17,7 @@ func init() {
 			"the save error is tested before returning, and only the nil edge leads to a success return; (R-C03-2) the bytes handed to the file writer are Marshal(wrapped{Version:const, DEK:kv.dekRaw, DB:Encrypt(Marshal(persist{Secrets: the live kv.secrets}), ctx)}); " +
 			"(R-C03-3) on the open path every file-mutating call is edge-dominated by errors.Is(readErr, fs.ErrNotExist); (R-C03-4) the schema-v1 wire signature computed from go/types " +
 			"(JSON keys, base64/text encodings, integer map keys), the schema constant, the AEAD context strings, the key template and keyset (de)serialisers, and reader/writer agreement; " +
-			"(R-C03-5) on the open path kv.secrets is exactly what json.Unmarshal produced from the Decrypt result.",
+			"(R-C03-5) on the open path kv.secrets is exactly what json.Unmarshal produced from the Decrypt result. (R-C03-6, extended) the database file is touched only through the atomic writer (C04's R-C04-1: nothing renames the live file aside).",
 		NotDecided:  "Equality of state after arbitrary histories (depends on encoding/json round-tripping and the AEAD, trusted); reading real files written by earlier builds (only their documented shape is compared).",
 		Trusted:     append([]string{"encoding/json encodes a type according to the shape computed here (tags, []byte as base64, TextMarshaler, integer map keys)", "tink keyset binary reader/writer are inverse"}, commonTrusted...),
 		Assumptions: []string{"the v1 layout is the one documented in db/kv.go's type comment and produced by the pinned types"},
